@@ -4,7 +4,7 @@ CONSTANTS
   AnyOrder = FALSE
   InitMatrix = TRUE
   ScriptUniverse = {"preinst", "postinst", "prerm", "postrm", "config"}
-  FileNames = {"f1", "f2"}
+  FileNames = {"f1"}
   Blobs = {11, 12}
   Decompressors = {"gz", "bz2", "xz", "lzma"}
   AcceptFirstCandidate = FALSE
